@@ -490,6 +490,16 @@ func (e *Exec) binop(fr *Frame, st *State, x *ssa.BinOp) Value {
 		e.exactArith(fr, st, x, "sub", x.X, x.Y, at, bt)
 		return e.def(SInt, ii.wrap(raw, true))
 	case token.MUL:
+		// (a / b) * b: give the solver the division lemma for these very terms (nonlinear otherwise)
+		for _, pr := range [][2]ssa.Value{{x.X, x.Y}, {x.Y, x.X}} {
+			if q, ok := pr[0].(*ssa.BinOp); ok && q.Op == token.QUO && q.Y == pr[1] {
+				a := e.term(fr, st, q.X)
+				b := e.term(fr, st, q.Y)
+				prod := App(SInt, "*", App(SInt, "tdiv", a, b), b)
+				e.assume(st.pc, Implies(And(Le(IntLit(0), a), Lt(IntLit(0), b)), And(Le(IntLit(0), prod), Le(prod, a), Lt(Sub(a, prod), b))))
+				e.assume(st.pc, Implies(And(Le(IntLit(0), a), Lt(IntLit(0), b)), Eq(App(SInt, "mod", prod, b), IntLit(0))))
+			}
+		}
 		raw := App(SInt, "*", at, bt)
 		e.exactArith(fr, st, x, "mul", x.X, x.Y, at, bt)
 		_, cx := x.X.(*ssa.Const)
@@ -1065,7 +1075,15 @@ func (e *Exec) onStore(fr *Frame, st *State, x *ssa.Store, c *Contract) {
 		if k := strings.Index(field, "="); k >= 0 {
 			field, konst = field[:k], field[k+1:]
 		}
+		nth := 0
+		if k := strings.Index(field, "#"); k >= 0 {
+			fmt.Sscan(field[k+1:], &nth)
+			field = field[:k]
+		}
 		if field != fname {
+			continue
+		}
+		if nth != 0 && e.P.staticOrdinal(fr.fn, x, "store:"+fname) != nth {
 			continue
 		}
 		if konst != "" {
@@ -1076,7 +1094,6 @@ func (e *Exec) onStore(fr *Frame, st *State, x *ssa.Store, c *Contract) {
 				continue
 			}
 		}
-		os.used++
 		ft := stt.s.Field(fa.Field).Type()
 		was := e.load(fr, st, e.val(fr, fa), ft)
 		now := e.val(fr, x.Val)
@@ -1088,6 +1105,11 @@ func (e *Exec) onStore(fr *Frame, st *State, x *ssa.Store, c *Contract) {
 		if lbl == "" {
 			lbl = fmt.Sprint(i + 1)
 		}
-		e.oblige(st, "on-store", os.Field+":"+lbl, e.evalClause(en, &Clause{Text: os.Text, Expr: os.Expr}), e.posOf(x))
+		g, applies := e.tryClause(en, os.Text, os.Expr)
+		if !applies {
+			continue
+		}
+		e.clauseUsed[os.Field+":"+lbl]++
+		e.oblige(st, "on-store", os.Field+":"+lbl, g, e.posOf(x))
 	}
 }
